@@ -22,7 +22,7 @@ TECHNIQUE = ("Hypothesis-generated layouts on real bzr and git working trees; "
              "classification of unversioned paths with the C48 matcher; "
              "enforcing guard under os.unlink / shutil.rmtree")
 RULE = ("Layout of depth <= 3 over names {a, b, n, x.tmp, y~, z.o, ig, c.THIS, "
-        "d.BASE, e-acute, .hid}: files, directories, symlinks (to siblings, to "
+        "d.BASE, e-acute, .hid, y~z, x.tmp.keep, c.THIS.txt, z.o.d}: files, directories, symlinks (to siblings, to "
         "nothing, to directories inside the tree, to a file / directory in the "
         "canary area next to the tree) and nested branches (bzr or git), each "
         "versioned or not (a child only if its parent is); ignore file "
@@ -55,7 +55,7 @@ REGISTERED = False
 NONTRIVIAL_FLOOR = {"quick": 100, "thorough": 3000}
 
 NAMES = ["a", "b", "n", "x.tmp", "y~", "z.o", "ig", "c.THIS", "d.BASE", "é",
-         ".hid"]
+         ".hid", "y~z", "x.tmp.keep", "c.THIS.txt", "z.o.d"]
 IGNORES = ["*.o", "ig", "*.tmp", "./b", "!z.o"]
 DETRITUS = (".THIS", ".BASE", ".OTHER", "~", ".tmp")
 F9_SIG = "C46/nested-branch-below-unknown-dir"
